@@ -450,11 +450,24 @@ def declare(config, st, in_prefix=False):
     elif k == 'static':
         config.add_static_view(st['name'], STATIC_DIR)
     elif k == 'vpred':
-        config.add_view_predicate(st['name'], VPred if st['name'] == 'vp' else VPred2)
+        kw = {}
+        if st.get('more'):
+            kw['weighs_more_than'] = st['more']
+        if st.get('less'):
+            kw['weighs_less_than'] = st['less']
+        config.add_view_predicate(st['name'], VPred if st['name'] == 'vp' else VPred2, **kw)
+    elif k == 'acceptorder':
+        kw = {}
+        if st.get('more'):
+            kw['weighs_more_than'] = st['more']
+        if st.get('less'):
+            kw['weighs_less_than'] = st['less']
+        config.add_accept_view_order(st['value'], **kw)
     elif k == 'rpred':
         config.add_route_predicate(st['name'], RPred)
     elif k == 'deriver':
-        config.add_view_deriver(_deriver(st['name'], 'tagopt' if st['name'] == 'dv' else 'tagopt2'), name=st['name'])
+        kw = {c: st[c] for c in ('under', 'over') if st.get(c)}
+        config.add_view_deriver(_deriver(st['name'], 'tagopt' if st['name'] == 'dv' else 'tagopt2'), name=st['name'], **kw)
     elif k == 'sub':
         tag = 's%d' % sid
         if st.get('ev') == 'resp':
@@ -468,7 +481,8 @@ def declare(config, st, in_prefix=False):
             sub.c08_sid = sid
             config.add_subscriber(sub, _P['NewRequest'])
     elif k == 'tween':
-        config.add_tween('harness.c08.tweens.tw_' + st['name'])
+        kw = {c: 'harness.c08.tweens.tw_' + st[c] for c in ('under', 'over') if st.get(c)}
+        config.add_tween('harness.c08.tweens.tw_' + st['name'], **kw)
     elif k == 'raw':
         RAW[st['call']][1](config)
     else:
@@ -808,6 +822,12 @@ def registrations(b, stmts):
             hs.append(r.handler.c08_sid)
     if hs:
         out['subs'] = hs
+    ao = q(I.IAcceptOrder)
+    if ao is not None:
+        mine = {st['value']: st['id'] for st in mains if st['k'] == 'acceptorder'}
+        l = [mine[n] for n, _ in ao.sorted() if n in mine]
+        if l:
+            out['accept'] = l
     sinfo = q(I.IStaticURLInfo)
     if sinfo is not None:
         l = [route_of.get(rn, -1) for (_, _, rn) in sinfo.registrations]
